@@ -407,6 +407,9 @@ func checkC01(c *Case) (*Violation, caseInfo) {
 	if c.Kind == "url" {
 		return checkC01URL(c)
 	}
+	if strings.HasPrefix(c.Kind, "probe:") {
+		return checkC01Probe(c)
+	}
 	var info caseInfo
 	var ex c01Extra
 	c.GetExtra(&ex)
